@@ -278,7 +278,7 @@ func (w *work) runPart(id string, p *PartSpec, tier, replay string) ([]*Result, 
 				c = exec.Command(bin, args...)
 			}
 			c.Dir = scratch
-			c.Env = append(os.Environ(), "VERIF_SCRATCH="+scratch, "VERIF_PART="+p.Name, "VERIF_REPO="+repoDir)
+			c.Env = append(os.Environ(), "VERIF_SCRATCH="+scratch, "VERIF_PART="+p.Name, "VERIF_REPO="+repoDir, "VERIF_WORKDIR="+w.dir)
 			if p.GoMaxProcs > 0 {
 				c.Env = append(c.Env, fmt.Sprintf("GOMAXPROCS=%d", p.GoMaxProcs))
 			}
